@@ -117,7 +117,9 @@ func c10(c *Ctx) {
 		isUpd := func(fn *types.Func, _ *ast.CallExpr) bool {
 			return isFunc(fn, "ircserver", "(*IRCServer).UpdateLastClientMessageID")
 		}
-		isPM := func(fn *types.Func, _ *ast.CallExpr) bool { return isFunc(fn, "ircserver", "(*IRCServer).ProcessMessage") }
+		isPM := func(fn *types.Func, _ *ast.CallExpr) bool {
+			return isFunc(fn, "ircserver", "(*IRCServer).ProcessMessage")
+		}
 		armOf := func(v int) string {
 			for _, f := range g.FactsAt(v) {
 				if f.Tag != nil && f.Val {
